@@ -14,12 +14,12 @@ import numpy as np
 from . import tlc, filt, pool, check_filters, sched
 
 
-def _fingerprint(res):
+def _fingerprint(res, innovations=True):
     h = []
     for k in ("trajectory", "trajectory_sd", "gyro", "gyro_sd", "accel", "accel_sd"):
         v = res[k]
         h.append(np.asarray(v.values, dtype=float).tobytes() + np.asarray(v.index, dtype=float).tobytes() + ",".join(map(str, v.columns)).encode())
-    for name in sorted(res["innovations"]):
+    for name in (sorted(res["innovations"]) if innovations else []):
         v = res["innovations"][name]
         h.append(name.encode() + np.asarray(v.values, dtype=float).tobytes() + np.asarray(v.index, dtype=float).tobytes())
     import hashlib
@@ -60,6 +60,16 @@ def run_sequence(m, task):
         D = data[d]
         ms = [getattr(M, c)(df, 1.0 if c == "Position" else 0.1) for c, df in D["meas"]]
         try:
+            if kind == "fb0":
+                form = [None, [], [M.Position(D["meas"][0][1].iloc[:1].set_axis([D["incs"].index[-1] + 5.0]), 1.0)]][(task["seed"] + len(out)) % 3]
+                res = filters.run_feedback_filter(D["pva"], 1.0, 0.1, 0.1, 1.0, D["incs"], gm, am, form, time_step=0.2, with_altitude=alt)
+                plain = m["strapdown"].Integrator(D["pva"], alt)
+                plain.integrate(D["incs"])
+                same = bool(plain.trajectory.shape == res.trajectory.shape and
+                            (plain.trajectory.values.view(np.int64) == res.trajectory.values.view(np.int64)).all() and
+                            (np.asarray(plain.trajectory.index) == np.asarray(res.trajectory.index)).all())
+                out.append(dict(kind=kind, data=d, model=mm, fp=_fingerprint(res, innovations=False), plain=same))   # the three data-free forms differ only in the (empty) innovations dict
+                continue
             if kind == "fb":
                 res = filters.run_feedback_filter(D["pva"], 1.0, 0.1, 0.1, 1.0, D["incs"], gm, am, ms, time_step=0.2, with_altitude=alt)
             else:
@@ -76,12 +86,12 @@ def check(rep, pid, tier, seed):
     check_filters.check(rep, "C12", tier, seed)
     rule1 = rep.rule
     # ---- clause 3
-    consts = dict(Kinds={"fb", "ff"}, Datasets={1, 2}, Models={1, 2}, MaxRuns=4 if tier == "quick" else 5, Resets=True)
-    r = tlc.run_tlc("FilterRuns", dict(spec="Spec", constants=consts, invariants=["RunsIndependent", "LeavesEstimates"]), workers=8, coverage=True)
+    consts = dict(Kinds={"fb", "ff", "fb0"}, Datasets={1, 2}, Models={1, 2}, MaxRuns=4 if tier == "quick" else 5, Resets=True)
+    r = tlc.run_tlc("FilterRuns", dict(spec="Spec", constants=consts, invariants=["RunsIndependent", "LeavesEstimates", "TransparentRerun"]), workers=8, coverage=True)
     rep.add_tlc("FilterRuns[MaxRuns=%d]" % consts["MaxRuns"], r)
     if not r.ok:
         rep.machinery("leg M: FilterRuns violates %s" % r.violated)
-    r2 = tlc.run_tlc("FilterRuns", dict(spec="Spec", constants=dict(consts, Resets=False, MaxRuns=3), invariants=["RunsIndependent"]), workers=4)
+    r2 = tlc.run_tlc("FilterRuns", dict(spec="Spec", constants=dict(consts, Resets=False, MaxRuns=3), invariants=["RunsIndependent", "TransparentRerun"]), workers=4)
     rep.extra.setdefault("spec_sensitivity", []).append(dict(model="FilterRuns[Resets=FALSE]", violated=r2.violated,
                                                              runs=tlc.to_jsonable(r2.trace[-1][1].get("runs")) if r2.trace else None))
     if r2.ok:
@@ -91,7 +101,8 @@ def check(rep, pid, tier, seed):
                       simulate=dict(num=n, file=True), depth=8, seed=seed)
     rep.add_tlc("FilterRuns[-simulate num=%d]" % n, sim, note="behaviour generation for leg R")
     tasks = []
-    fixed = [[("run", "fb", 1, 1), ("run", "ff", 1, 1), ("run", "fb", 1, 1), ("run", "ff", 1, 1)],
+    fixed = [[("run", "fb", 1, 1), ("run", "fb0", 1, 1), ("run", "ff", 1, 1), ("run", "fb0", 2, 1)],
+             [("run", "fb", 1, 1), ("run", "ff", 1, 1), ("run", "fb", 1, 1), ("run", "ff", 1, 1)],
              [("run", "fb", 1, 1), ("run", "fb", 2, 1), ("run", "fb", 1, 1)],
              [("run", "ff", 2, 2), ("poke", 2), ("run", "ff", 2, 2)]]
     for k, tr in enumerate(sim.sim_traces):
@@ -125,6 +136,10 @@ def check(rep, pid, tier, seed):
         repeated = [g for g in groups.values() if len(g) > 1]
         if repeated and out["est_nonzero"]:
             rep.nontrivial.add(json.dumps(t["seq"]))
+        for rr in out["runs"]:
+            if rr.get("plain") is False:
+                rep.violation("C12 transparency: a data-free feedback run that re-uses model objects is not bit-identical to plain strapdown integration "
+                              "(run sequence %s)" % (t["seq"],), dict(kind="runs", task=t), key="plain")
         for g in groups.values():
             if any(rr["fp"].startswith("EXC") for rr in g):
                 rep.violation("C12 re-run: a filter run raised in sequence %s: %s" % (t["seq"], [rr["fp"] for rr in g if rr["fp"].startswith("EXC")][0]),
